@@ -4,7 +4,7 @@ import numpy as np
 from ..core import Check, Violation
 from ..runner import Case
 from ..dataprog import NBProg, check_final_file, select
-from ..model import check_expectations, Expect, XT2MEM
+from ..model import check_expectations, Expect, XT2MEM, MEM
 from .. import cdfspec as cs
 
 
@@ -67,11 +67,15 @@ class BBProg(NBProg):
                 self.one_access("put", r, vid, st, ct, sd, True, form="varn" if fam == "varn" else self.rng.choice(["vara", "vars"]), mt=self.typed_mem(v))
             else:
                 nel = int(np.prod(bx[1])) if v.ndims else 1
-                self.maxreq = max(self.maxreq, nel * 8)
                 if nonblocking:
+                    self.maxreq = max(self.maxreq, nel * 8)
                     self.post("iput", r, vid, bx[0], bx[1], bx[2], fam=fam)
                 else:
-                    self.one_access("put", r, vid, bx[0], bx[1], bx[2], True, fam=fam, mt=self.typed_mem(v))
+                    mt = self.typed_mem(v)
+                    # the log stores the caller's buffer as it is: the exact entry size decides how many flush rounds a
+                    # "largest request" flush buffer needs
+                    self.maxreq = max(self.maxreq, nel * np.dtype(MEM[mt]).itemsize)
+                    self.one_access("put", r, vid, bx[0], bx[1], bx[2], True, fam=fam, mt=mt)
                 self.own[r].append((vid, bx))
                 if v.isrec and bx[1][0] > 0:
                     self.nr_own[r] = max(self.nr_own[r], bx[0][0] + (bx[1][0] - 1) * bx[2][0] + 1)
@@ -148,7 +152,11 @@ def gen_program(rng, i, nprocs):
     for step in range(rng.randint(4, 10)):
         k = rng.random()
         vid = rng.randrange(len(p.fm.vars))
-        if k < 0.08:
+        if k < 0.16 and k >= 0.08:
+            # a burst of logged puts (several log entries per rank) before anything flushes
+            for _ in range(rng.randint(2, 4)):
+                p.bb_put(rng.randrange(len(p.fm.vars)))
+        elif k < 0.08:
             p.bb_indep(vid, rng.random() < 0.5)
             p.end_indep()
             if rng.random() < 0.5:
@@ -216,9 +224,9 @@ def gen_program(rng, i, nprocs):
 
 def make_cases(rng, i, nprocs):
     p, lsline = gen_program(rng, i, nprocs)
-    fb = rng.choice([0, 0, 1 << 20, max(64, 2 * p.maxreq), max(16, p.maxreq)])
+    fb = rng.choice([0, 1 << 20, max(64, 2 * p.maxreq), max(16, p.maxreq), max(16, p.maxreq), max(16, p.maxreq)])      # the last two: several flush rounds
     hints = ["nc_burst_buf:enable", "nc_burst_buf_dirname:@OUT@/bb", "nc_burst_buf_flush_buffer_size:%d" % fb]
-    shared = rng.random() < 0.3
+    shared = rng.random() < 0.5
     keep = rng.random() < 0.25
     if shared:
         hints.append("nc_burst_buf_shared_logs:enable")
